@@ -144,13 +144,32 @@ func (s *c07ChanStore) RemoteCommitChainTip(
 // either through a pending remote commit (viaTip) or through the locked-in
 // remote commitment.
 func c07OpenChan(scid uint64, pending bool, next uint64,
-	viaTip bool) *chanstate.OpenChannel {
+	viaTip bool, flavour ...int) *chanstate.OpenChannel {
 
 	st := &c07ChanStore{}
 	ch := &chanstate.OpenChannel{
 		ShortChannelID: lnwire.NewShortChanIDFromInt(scid),
 		IsPending:      pending,
 		Db:             st,
+	}
+	// Channel flavour: the identifier the links key their keystones by is
+	// ShortChanID() for every kind of channel (for a zero-conf channel that
+	// is its alias, before and after the funding transaction confirms), so
+	// the roll-back of uncommitted keystones must not depend on it.
+	if len(flavour) > 0 {
+		switch flavour[0] {
+		case c07FlavScidAlias:
+			ch.ChanType |= chanstate.ScidAliasChanBit
+		case c07FlavZeroConf:
+			ch.ChanType |= chanstate.ZeroConfBit |
+				chanstate.ScidAliasChanBit
+		case c07FlavZeroConfConfirmed:
+			ch.ChanType |= chanstate.ZeroConfBit |
+				chanstate.ScidAliasChanBit
+			ch.SetConfirmedScidForStore(
+				lnwire.NewShortChanIDFromInt(scid + 1000),
+			)
+		}
 	}
 	if viaTip {
 		// The locked-in commitment lags behind the pending one.
@@ -397,8 +416,16 @@ func (s c07ChanStatus) String() string {
 
 const c07NumChans = 3 // channels 1..3; 0 is hop.Source
 
+const (
+	c07FlavRegular = iota
+	c07FlavScidAlias
+	c07FlavZeroConf
+	c07FlavZeroConfConfirmed
+)
+
 type c07RestartSpec struct {
 	status [c07NumChans + 1]c07ChanStatus
+	flav   [c07NumChans + 1]int
 	start  [c07NumChans + 1]uint64
 	viaTip [c07NumChans + 1]bool
 	resMsg map[CircuitKey]bool
@@ -419,6 +446,8 @@ func (s *c07RestartSpec) String() string {
 			if s.viaTip[c] {
 				str += "t"
 			}
+			str += [...]string{"", "/alias", "/zeroconf",
+				"/zeroconf-confirmed"}[s.flav[c]]
 		}
 		str += " "
 	}
